@@ -160,6 +160,17 @@ def run(tier='quick'):
     V6 = chk.rule('V6', 'the listing helpers read the catalog of the database they are given: PRAGMA / sqlite_master '
                         'statements qualified with their database-name parameter', floor=8)
     _listing_sources(prog, chk, V6)
+    V7 = chk.rule('V7', 'the column listing shows every column: it is read with PRAGMA table_xinfo, which also lists '
+                        'generated (hidden) columns - table_info leaves them out, so an extra generated column is not '
+                        'reported', floor=2)
+    _listing_complete(prog, chk, V7)
+    V8 = chk.rule('V8', 'every view a creator makes has an expectation block for its columns (a missing, extra or renamed '
+                        'column of a view is a deviation too; the library selects view columns by name)', floor=20)
+    V9 = chk.rule('V9', 'verify() reports a deviation as database_inconsistency whatever statement of the validator trips '
+                        'over it: each call of a validator sits in a try block whose handler for the SQLite exception '
+                        'type throws database_inconsistency (PRAGMA table_info on a view whose base table lost a column '
+                        'fails inside SQLite)', floor=2)
+    _verify_translates(prog, chk, V9)
     chk.assume('PRAGMA table_info / index_list / index_info and sqlite_master report what the catalog '
                'model derives from the DDL (the model is cross-validated here against expectation blocks '
                'that pass on real SQLite in the pinned suite)')
@@ -235,9 +246,20 @@ def run(tier='quick'):
             # views: the property lists missing/extra/renamed views (master_list
             # block); their columns are checked where a block exists but a block
             # is not required for them
-            unins = [v for v in vws if (alias, 'table_info', v.lower()) not in seen]
-            if unins:
-                chk.note('%s: views without a column block (not required): %s' % (short, ', '.join(sorted(unins))))
+            # (until the hunt, a column block for a view was not required: a view has no stored columns.  But its
+            # columns are what the library selects from it, and a renamed / missing / extra one is a deviation the
+            # property lists - the 1.x validators inspect them, rule V8)
+            for v in vws:
+                if (alias, 'table_info', v.lower()) in seen:
+                    chk.ok(V8, '%s columns of view %s.%s are inspected' % (short, alias, v),
+                           site='%s|cov|view|%s|%s' % (short, alias, v))
+                else:
+                    chk.violation(V8, 'view %s|no column block in the %s validators' % (v, '2.x' if gen == 2 else '1.x'),
+                                  short,
+                                  '%s: verify() names view %s.%s in its master list but never inspects its columns: a '
+                                  'missing, extra or renamed column of the view (or a view body replaced altogether) goes '
+                                  'unreported although the library selects those columns by name' % (short, alias, v),
+                                  facts={'class': short})
             for t in objs:
                 if (alias, 'table_info', t.lower()) not in seen:
                     chk.violation(V2, '%s|table_info|%s|missing-block' % (short, t), short,
@@ -398,6 +420,76 @@ def _throws_inconsistency(thr):
         return False
     t = strip(c[0]).get('type') or c[0].get('type') or ''
     return t.replace('const ', '').split('::')[-1] == 'database_inconsistency'
+
+
+def _listing_complete(prog, chk, V7):
+    from .. import sites as _sites
+    n = 0
+    for f in prog.functions.values():
+        if f.body is None or f.kind != 'CXXConstructorDecl' or 'schema_validate_utils' not in (f.file or ''):
+            continue
+        if (f.cls or '').split('::')[-1] != 'table_info':
+            continue
+        for st in _sites.find_sites(f):
+            n += 1
+            short = '%s(%s)' % ((f.qualname or '').split('::')[-1], ', '.join(p.get('name') for p in f.params[1:]))
+            if re.search(r'\btable_xinfo\b', st.text, re.I):
+                chk.ok(V7, '%s lists columns with table_xinfo' % short, locstr(st.node))
+            else:
+                chk.violation(V7, 'table_info|columns listed with table_info', locstr(st.node),
+                              '%s reads %r: PRAGMA table_info omits generated columns, so `ALTER TABLE t ADD COLUMN x '
+                              'INTEGER GENERATED ALWAYS AS (1) VIRTUAL` adds a column verify() does not see (an '
+                              'ordinary extra column is reported)' % (short, st.text))
+    if n < 2:
+        raise AnalysisBroken('V7: the column listing helper was not found')
+
+
+def _verify_translates(prog, chk, V9):
+    n = 0
+    for f in prog.functions.values():
+        if f.is_pattern or f.body is None or not prog.in_repo(f.file) or '/schema/' in (f.file or ''):
+            continue
+        parent = {}
+        for x in walk(f.body):
+            for c in children(x):
+                parent[id(c)] = x
+        for call in walk(f.body):
+            if call.get('kind') != 'CXXMemberCallExpr' or strip(children(call)[0]).get('name') != 'verify':
+                continue
+            recv = children(strip(children(call)[0]))
+            rt = (strip(recv[0]).get('type') or '') if recv else ''
+            if 'schema_creator_validator' not in rt:
+                continue
+            n += 1
+            chk.analysed(f)
+            short = f.qualname.replace('djinterop::engine::', '')
+            ok = False
+            x = call
+            while id(x) in parent:
+                x = parent[id(x)]
+                if x.get('kind') != 'CXXTryStmt':
+                    continue
+                for h in children(x)[1:]:
+                    if h.get('kind') != 'CXXCatchStmt':
+                        continue
+                    hv = [c for c in children(h) if c.get('kind') == 'VarDecl']
+                    ht = (hv[0].get('type') if hv else '...') or ''
+                    catches = 'sqlite_exception' in ht or ht == '...' or 'std::exception' in ht
+                    throws = any(y.get('kind') == 'CXXThrowExpr' and children(y) and
+                                 'database_inconsistency' in (strip(children(y)[0]).get('type') or '')
+                                 for y in walk(h))
+                    if catches and throws:
+                        ok = True
+            if ok:
+                chk.ok(V9, '%s converts SQLite errors of the validator to database_inconsistency' % short, locstr(call))
+            else:
+                chk.violation(V9, '%s|sqlite error escapes verify' % short, locstr(call),
+                              '%s calls the validator outside any handler that turns sqlite::sqlite_exception into '
+                              'database_inconsistency: dropping List.title (a column the Crate view uses) makes PRAGMA '
+                              'table_info(\'Crate\') fail, and verify() throws "SQL logic error" instead of reporting '
+                              'the deviation' % short)
+    if n < 2:
+        raise AnalysisBroken('V9: fewer than two calls of a validator found (%d)' % n)
 
 
 def _entry(prog, chk, V4):
